@@ -1,3 +1,15 @@
 # sourced by every entry point
 export GOFLAGS=-mod=mod GOPROXY=off GOSUMDB=off GOTOOLCHAIN=local
-export VERIF_ROOT=/verif
+# A build cache of our own, bounded: every batch of generated packages is
+# compiled once and never needed again, and Go only trims entries after days.
+# (The default cache grew to 129 GB in one day of runs.) It is emptied when it
+# outgrows the cap and no other check is using it; it is rebuilt on demand.
+export GOCACHE="${VERIF_GOCACHE:-/var/tmp/verif-gocache}"
+mkdir -p "$GOCACHE"
+exec 9>"$GOCACHE.lock"
+if flock -n -x 9; then
+  if [ "$(du -sm "$GOCACHE" 2>/dev/null | cut -f1)" -gt "${VERIF_GOCACHE_MAX_MB:-12000}" ]; then
+    rm -rf "$GOCACHE"; mkdir -p "$GOCACHE"
+  fi
+fi
+flock -s 9   # shared for the life of this process tree (fd 9 is inherited)
